@@ -22,6 +22,7 @@ import (
 	"os/exec"
 	"sort"
 	"strings"
+	"sync"
 	"time"
 
 	"mvdan.cc/sh/v3/syntax"
@@ -75,7 +76,45 @@ func allCfgs() []hs.Cfg {
 
 func steps() int64 { return syntax.VerifNextCount + syntax.VerifRuneCount + syntax.VerifLoopCount }
 
-func runInput(id, src string, full bool, r *rand.Rand) obs {
+// truncJobs: the configurations a truncated input is run under: recovery on, every variant.
+func truncJobs(all bool) (jobs []struct {
+	cfg   hs.Cfg
+	entry string
+}) {
+	add := func(c hs.Cfg, e string) {
+		jobs = append(jobs, struct {
+			cfg   hs.Cfg
+			entry string
+		}{c, e})
+	}
+	for _, l := range hs.Langs {
+		if all {
+			for rec := 0; rec <= 3; rec++ {
+				add(hs.Cfg{Lang: l, Keep: true, Recover: rec}, "Parse")
+			}
+			for _, rec := range []int{1, 3} {
+				add(hs.Cfg{Lang: l, Keep: rec == 3, Recover: rec}, "StmtsSeq")
+				add(hs.Cfg{Lang: l, Keep: rec == 1, Recover: rec}, "InteractiveSeq")
+			}
+			if l == syntax.LangBash || l == syntax.LangPOSIX || l == syntax.LangZsh {
+				for _, e := range []string{"WordsSeq", "Document", "Arithmetic"} {
+					add(hs.Cfg{Lang: l, Keep: true, Recover: 1}, e)
+				}
+			}
+		} else {
+			add(hs.Cfg{Lang: l, Keep: true, Recover: 1}, "Parse")
+			add(hs.Cfg{Lang: l, Keep: false, Recover: 3}, "Parse")
+		}
+	}
+	if !all {
+		add(hs.Cfg{Lang: syntax.LangBash, Keep: true, Recover: 2}, "StmtsSeq")
+		add(hs.Cfg{Lang: syntax.LangBash, Keep: true, Recover: 2}, "Arithmetic")
+	}
+	return jobs
+}
+
+func runInput(id, src string, mode string, r *rand.Rand) obs {
+	full := mode == "1"
 	o := obs{ID: id, Hex: hx.Hex(src), Len: len(src)}
 	cfgs := allCfgs()
 	type job struct {
@@ -83,7 +122,12 @@ func runInput(id, src string, full bool, r *rand.Rand) obs {
 		entry string
 	}
 	var jobs []job
-	if full {
+	if mode == "T" || mode == "t" {
+		for _, j := range truncJobs(mode == "T") {
+			jobs = append(jobs, job{j.cfg, j.entry})
+		}
+		full = false // two printer option sets per node are enough here; the volume is in the prefixes
+	} else if full {
 		for _, c := range cfgs {
 			for _, e := range hs.Entries {
 				jobs = append(jobs, job{c, e})
@@ -171,7 +215,7 @@ func worker() {
 			src := hx.UnHex(f[1])
 			var cs uint64
 			fmt.Sscan(f[3], &cs)
-			o := runInput(f[0], src, f[2] == "1", hx.Rand(cs, 601))
+			o := runInput(f[0], src, f[2], hx.Rand(cs, 601))
 			b, _ := json.Marshal(o)
 			out.Write(b)
 			out.WriteByte('\n')
@@ -235,6 +279,7 @@ func (c *child) ask(req string, budget time.Duration) (string, string) {
 type input struct {
 	id, src string
 	full    bool
+	mode    string // "" (by full), "T" truncation of a catalogue construct, "t" truncation of a corpus item
 }
 
 func buildInputs(seed uint64, tier string, nGen int) []input {
@@ -251,13 +296,39 @@ func buildInputs(seed uint64, tier string, nGen int) []input {
 		if parts > 1 && uint64(i)%uint64(parts) != seed%uint64(parts) {
 			continue
 		}
-		ins = append(ins, input{fmt.Sprintf("corpus:%d", i), s, i%16 == 0 || len(s) < 8})
+		ins = append(ins, input{id: fmt.Sprintf("corpus:%d", i), src: s, full: i%16 == 0 || len(s) < 8})
+	}
+	// fixed enumeration: every byte-prefix of every catalogue construct (always, all of them), and the prefixes of the
+	// corpus slice at every token boundary, parsed with recovery on
+	seenT := map[string]bool{}
+	for ci, c := range hs.Catalogue {
+		for b := 1; b <= len(c); b++ {
+			if p := c[:b]; !seenT[p] {
+				seenT[p] = true
+				ins = append(ins, input{id: fmt.Sprintf("trunc-cat:%d:%d", ci, b), src: p, mode: "T"})
+			}
+		}
 	}
 	for si, stream := range hs.Streams {
 		r := hx.Rand(seed, 610+uint64(si))
 		for i := 0; i < nGen; i++ {
 			s := hs.ByName(r, stream, corpus)
-			ins = append(ins, input{fmt.Sprintf("%s:%d:%d", stream, seed, i), s, i%16 == 0})
+			ins = append(ins, input{id: fmt.Sprintf("%s:%d:%d", stream, seed, i), src: s, full: i%16 == 0})
+		}
+	}
+	tparts := 32
+	if tier == "thorough" {
+		tparts = 1
+	}
+	for i, s := range corpus {
+		if uint64(i)%uint64(tparts) != seed%uint64(tparts) || len(s) > 600 {
+			continue
+		}
+		for _, b := range hs.TokenBoundaries(s) {
+			if p := s[:b]; !seenT[p] {
+				seenT[p] = true
+				ins = append(ins, input{id: fmt.Sprintf("trunc:%d:%d", i, b), src: p, mode: "t"})
+			}
 		}
 	}
 	return ins
@@ -266,42 +337,79 @@ func buildInputs(seed uint64, tier string, nGen int) []input {
 func search(o hx.Opts) {
 	ins := buildInputs(o.Seed, o.Tier, o.N)
 	budget := 6 * time.Second
-	c := startChild()
-	defer func() { c.kill() }()
+	workers := 4
+	fmt.Sscan(os.Getenv("C06_WORKERS"), &workers)
+	if workers < 1 {
+		workers = 1
+	}
+	var mu sync.Mutex
 	nHang, nCrash, nDone := 0, 0, 0
 	start := time.Now()
 	capS := 0
 	fmt.Sscan(os.Getenv("C06_BUDGET_S"), &capS)
-	for i, in := range ins {
-		if capS > 0 && time.Since(start) > time.Duration(capS)*time.Second {
-			break
+	next := 0
+	take := func() (int, bool) { // inputs are handed out in order; the cap cuts the tail of the list
+		mu.Lock()
+		defer mu.Unlock()
+		if next >= len(ins) || (capS > 0 && time.Since(start) > time.Duration(capS)*time.Second) {
+			return 0, false
 		}
+		next++
 		nDone++
-		req := fmt.Sprintf("%s\t%s\t%d\t%d", in.id, hex.EncodeToString([]byte(in.src)), b2i(in.full), o.Seed*1000003+uint64(i))
-		line, why := c.ask(req, budget)
-		if why != "" {
-			// never a verdict by itself: re-run alone in a fresh worker with 10x the budget
-			c.kill()
-			c = startChild()
-			line, why = c.ask(req, 10*budget)
-			if why != "" {
-				c.kill()
-				c = startChild()
-				ob := obs{ID: in.id, Hex: hx.Hex(in.src), Len: len(in.src)}
-				if why == "hang" {
-					ob.Hang = fmt.Sprintf("no answer within %v (alone, fresh worker)", 10*budget)
-					nHang++
-				} else {
-					ob.Crash = "worker died (fatal error: not recoverable by recover())"
-					nCrash++
-				}
-				hx.Emit(ob)
-				continue
-			}
-		}
-		hx.Emit(json.RawMessage(strings.TrimSpace(line)))
+		return next - 1, true
 	}
-	hx.Emit(map[string]any{"summary": map[string]any{"inputs": len(ins), "done": nDone, "hangs": nHang, "crashes": nCrash}})
+	emit := func(v any) {
+		mu.Lock()
+		hx.Emit(v)
+		mu.Unlock()
+	}
+	var wg sync.WaitGroup
+	for w := 0; w < workers; w++ {
+		wg.Add(1)
+		go func() {
+			defer wg.Done()
+			c := startChild()
+			defer func() { c.kill() }()
+			for {
+				i, ok := take()
+				if !ok {
+					return
+				}
+				in := ins[i]
+				mode := in.mode
+				if mode == "" {
+					mode = fmt.Sprint(b2i(in.full))
+				}
+				req := fmt.Sprintf("%s\t%s\t%s\t%d", in.id, hex.EncodeToString([]byte(in.src)), mode, o.Seed*1000003+uint64(i))
+				line, why := c.ask(req, budget)
+				if why != "" {
+					// never a verdict by itself: re-run alone in a fresh worker with 10x the budget
+					c.kill()
+					c = startChild()
+					line, why = c.ask(req, 10*budget)
+					if why != "" {
+						c.kill()
+						c = startChild()
+						ob := obs{ID: in.id, Hex: hx.Hex(in.src), Len: len(in.src)}
+						mu.Lock()
+						if why == "hang" {
+							ob.Hang = fmt.Sprintf("no answer within %v (fresh worker)", 10*budget)
+							nHang++
+						} else {
+							ob.Crash = "worker died (fatal error: not recoverable by recover())"
+							nCrash++
+						}
+						mu.Unlock()
+						emit(ob)
+						continue
+					}
+				}
+				emit(json.RawMessage(strings.TrimSpace(line)))
+			}
+		}()
+	}
+	wg.Wait()
+	hx.Emit(map[string]any{"summary": map[string]any{"inputs": len(ins), "done": nDone, "hangs": nHang, "crashes": nCrash, "workers": workers}})
 }
 
 func b2i(b bool) int {
@@ -431,7 +539,9 @@ func main() {
 			panic(err)
 		}
 		src := hx.UnHex(strings.TrimSpace(string(b)))
-		ob := runInput("one", src, true, hx.Rand(1, 1))
+		ob := runInput("one", src, "T", hx.Rand(1, 1))
+		hx.Emit(ob)
+		ob = runInput("one", src, "1", hx.Rand(1, 1))
 		hx.Emit(ob)
 	case "list":
 		ins := buildInputs(o.Seed, o.Tier, o.N)
